@@ -231,7 +231,7 @@ def run(chk, only=None):
             # classes of known weaknesses, identified by the construct (see known_findings.json)
             stm_ids = set(re.findall(r"[A-Za-z_][A-Za-z0-9_]*", stm))
             decls = text[:text.rfind("{")] if "{" in text else text
-            enum_objs = set(re.findall(r"enum\s+\w+\s+(\w+)", decls)) | set(re.findall(r"\b([A-Z]\w*)\b(?=\s*[,=}])", " ".join(re.findall(r"enum\s*\w*\s*\{([^}]*)\}", decls))))
+            enum_objs = set(re.findall(r"enum\s+\w+\s+(\w+)", decls)) | set(re.findall(r"\b([A-Za-z_]\w*)\b(?=\s*[,=}])", " ".join(re.findall(r"enum\s*\w*\s*\{([^}]*)\}", decls))))
             arr_objs = set(re.findall(r"(\w+)\s*\[\d*\]", decls))
             if (c.startswith("error:TypeChecker-0") or c.startswith("error:Resolver")) and (stm_ids & enum_objs):
                 key = "operand:of-enumerated-type"
